@@ -289,18 +289,24 @@ func (env *specEnv) lvalue(x ast.Expr) (Ptr, types.Type) {
 		}
 		return toPtr(v.V), pt.Elem()
 	case *ast.SelectorExpr:
+		var p Ptr
+		var st *types.Struct
 		base := env.eval(t.X)
-		pt, ok := base.T.Underlying().(*types.Pointer)
-		if !ok {
-			specErr("lvalue selector on non-pointer %s", base.T)
-		}
-		st, ok := pt.Elem().Underlying().(*types.Struct)
-		if !ok {
-			specErr("lvalue selector on non-struct pointer")
+		if pt, ok := base.T.Underlying().(*types.Pointer); ok {
+			st, ok = pt.Elem().Underlying().(*types.Struct)
+			if !ok {
+				specErr("lvalue selector on non-struct pointer")
+			}
+			p = toPtr(base.V)
+		} else if sst, ok := base.T.Underlying().(*types.Struct); ok {
+			// field of an addressable struct (it.p.Read): address of the struct first
+			bp, _ := env.lvalue(t.X)
+			p, st = bp, sst
+		} else {
+			specErr("lvalue selector on %s", base.T)
 		}
 		for i := 0; i < st.NumFields(); i++ {
 			if st.Field(i).Name() == t.Sel.Name {
-				p := toPtr(base.V)
 				return Ptr{p.R, c.Add(p.O, c.Const(64, uint64(structOffsets(st)[i])))}, st.Field(i).Type()
 			}
 		}
